@@ -1,0 +1,60 @@
+//go:build verif
+
+// Copyright (C) 2026  mieru authors
+//
+// This program is free software: you can redistribute it and/or modify
+// it under the terms of the GNU General Public License as published by
+// the Free Software Foundation, either version 3 of the License, or
+// (at your option) any later version.
+//
+// This program is distributed in the hope that it will be useful,
+// but WITHOUT ANY WARRANTY; without even the implied warranty of
+// MERCHANTABILITY or FITNESS FOR A PARTICULAR PURPOSE.  See the
+// GNU General Public License for more details.
+//
+// You should have received a copy of the GNU General Public License
+// along with this program.  If not, see <https://www.gnu.org/licenses/>.
+
+package serveruser
+
+import (
+	"net"
+
+	"github.com/enfein/mieru/v3/pkg/cipher"
+)
+
+// Verification hooks (build tag "verif"): an explicit cache clock, the cache
+// bucket of an address, and discovery with a callback between the attempt and
+// the currency check.
+
+// VerifSetCacheTick replaces the clock of the current generation's cache.
+// It must not be called concurrently with discovery.
+func (r *Registry) VerifSetCacheTick(tick func() uint32) {
+	if s := r.users.Load(); s != nil && s.cache != nil {
+		s.cache.tick = tick
+	}
+}
+
+// VerifBucketIndex returns the cache bucket of the source address.
+func VerifBucketIndex(addr net.Addr) (uint32, bool) {
+	key, ok := sourceUserCacheKey(addr)
+	if !ok {
+		return 0, false
+	}
+	return sourceUserCacheBucketIndex(key), true
+}
+
+// VerifDiscoverAfterAttempt is Discover with afterAttempt invoked after each
+// attempt on one generation and before the currency check.
+func (r *Registry) VerifDiscoverAfterAttempt(encryptedMetadata []byte, source Source, requireCurrent bool, afterAttempt func()) (cipher.BlockCipher, []byte, Authentication, error) {
+	result, err := discoverUser(&r.users, &r.hintMandatory, encryptedMetadata, source, requireCurrent, func(*state) {
+		if afterAttempt != nil {
+			afterAttempt()
+		}
+	})
+	if err != nil {
+		return nil, nil, Authentication{}, err
+	}
+	result.block.SetBlockContext(result.userContext)
+	return result.block, result.decryptedMetadata, result.authentication(source), nil
+}
